@@ -233,6 +233,18 @@ def attribute(res):
         fl = (site or clause)['line_start'] if (site or clause) else 0
         f = func_at(m, fl) or (func_at(m, clause['line_start']) if clause else None)
         fname = f['name'] if f else '<prelude>'
+        ptags = set()
+        if not f and fl:
+            # lemma / spec function written in the template: name it and read `[Cxx]` tags from its header or doc comment
+            for ln in range(fl, max(fl - 400, 0), -1):
+                mm = re.match(r'\s*(?:pub\s+)?(?:broadcast\s+)?(?:open\s+|closed\s+)?(?:proof|spec)\s+fn\s+(\w+)', lines[ln - 1])
+                if mm:
+                    fname = mm.group(1)
+                    for q in (ln - 1, ln - 2):
+                        if 0 <= q < len(lines):
+                            for tm in TAG_RE.finditer(lines[q]):
+                                ptags.update(x.strip() for x in tm.group(1).split(','))
+                    break
         ctext = ''
         tags = set()
         if clause and not clause['file'].startswith('/'):
@@ -264,6 +276,8 @@ def attribute(res):
             tags.add('C12')      # R4: always-on assert_invariant! panics iff the condition is false
         elif not tags and f:
             tags.update(f['tags'])
+        if not tags and ptags:
+            tags.update(ptags)
         oid = '%s::%s::%s::%s' % (res['unit'], fname, kind, ctext if kind != 'pre' else (stext + ' => ' + ctext))
         e['function'] = fname
         e['file'] = f['file'] if f else ''
